@@ -3,6 +3,16 @@
 truth for what is claimed). Run after adding a check."""
 import json, os
 CHECKS = {
+ "C01": dict(engine="enum",
+   technique="bounded-exhaustive metamorphic exploration: every program (multiset of <=k pool declarations) x every rearrangement, executed on the real evaluator, canonical semantic dump compared",
+   text="For every program of the declaration-pool grammar up to the bound, ALL rearrangements (declaration permutations at both struct levels, &-commutation/association, split/merge, duplication, v&v, v&_, {v}, file partitions x file orders) are evaluated by the real evaluator and must give the same canonical value (fields, arc types, closedness by Allows probes, scalar constraints by probe atoms, defaults, error class per path).",
+   note="Trusts package canon (public API + adt error codes). Bounded: pool of ~90 declarations over 5 colliding labels, k<=2 (+k=3 on a 32-declaration sub-pool) quick; k=3 / k=4 thorough. Three known evaluator findings are listed in known_findings.jsonl.",
+   ref="DESIGN.md §3 C01"),
+ "C02": dict(engine="enum",
+   technique="bounded-exhaustive input enumeration (token strings, hostile programs, byte strings, single-byte substitutions) through the real pipeline, 4 runs each incl. a helper process; crash/hang attribution per input",
+   text="Every input of the bounded spaces runs the full parse->compile->evaluate->validate->export(CUE/JSON/YAML) pipeline twice in one context, once in a fresh context (helper process, stack cap 256 MiB, 30 s deadline) and once in the worker process; any panic, fatal error, timeout or byte difference between the four outputs is a violation.",
+   note="Trusts the helper-process protocol; time/memory bounds are the stack cap and the 30 s deadline. Inputs beyond the length/declaration bound are not covered.",
+   ref="DESIGN.md §3 C02"),
  "C09": dict(engine="enum",
    technique="bounded-exhaustive enumeration of token strings / strings x quoting forms / literal spellings on the real scanner, parser and literal package (explicit-state, no sampling)",
    text="Every token string up to the length bound, every string over a hostile rune alphabet under every quoting form and every literal-candidate spelling up to the bound is executed on the real code and checked against position invariants, Unquote(Quote(s))==s and three-way validity agreement. Exhaustive within the stated alphabet/bound; says nothing beyond it.",
